@@ -205,7 +205,17 @@ func (m *mon) checkInst(t time.Time, loc *time.Location, localIsZone bool, w, kw
 			// DST starts at local midnight, asked on the eve for a time in the skipped hour: America/Havana 2099-03-07
 			// 23:56:40, 00:12:32 -> 2099-03-07 23:12:32): under the monitor's convention "h:mi:s on day D = time.Date(D, ...)"
 			// neither today's nor tomorrow's occurrence is in the future; recorded as an observation (docs/C19-NOTES.md)
-			m.skip("GetNextMoment:tomorrows-moment-resolved-into-the-past")
+			if !nm.After(t) {
+				// a genuine violation of "the next moment is a FUTURE instant" (open finding C19-next-moment-in-a-midnight-gap)
+				if len(m.viol) < 6 {
+					m.viol = append(m.viol, vh.Violation{Kind: "chrono:GetNextMoment:not-in-the-future",
+						Detail: fmt.Sprintf("now=%s %02d:%02d:%02d got %s: tomorrow's wall clock lies in the hour skipped at local midnight and is resolved to an instant that is not after now",
+							fmtT(t), h, mi, s, fmtT(nm)),
+						Sig: map[string]string{"func": "GetNextMoment", "zone_rule": zoneRule(m.c.Zone), "gap": "tomorrows-moment-in-a-midnight-gap"}})
+				}
+			} else {
+				m.skip("GetNextMoment:tomorrows-moment-resolved-into-the-past")
+			}
 		} else if !nm.After(t) {
 			m.hit("GetNextMoment", "not-in-the-future", "now=%s %02d:%02d:%02d got %s", fmtT(t), h, mi, s, fmtT(nm))
 		} else if !nm.Equal(want) {
